@@ -8,6 +8,7 @@ flat form.  Everything holds for arbitrary key types and arbitrarily large maps 
 -/
 import P2.Model.Heights
 import P2.Lemmas.Heights
+import P2.Extracted.C06
 
 namespace P2.C06
 open P2.Heights
@@ -320,6 +321,119 @@ theorem c06_flatten_compareNested (loc rem : Nested A L)
           simp [flatten]
 
 end Nested
+
+/-! ## Tie to the source text
+
+The decision pieces of `logs::compare` are re-extracted from `p2panda-core/src/logs.rs` on every
+run (`P2.Extracted.C06`): the comparison operator of the per-log test, the `(from, until)` pair
+of each of the three `insert`s and the author-level shortcut.  `decideLogG` is the per-log
+decision *parameterised* by those pieces; `c06_source_ops` says the extracted text denotes the
+pieces the model uses, `c06_decision_is_source` that the model's per-log lambda is the
+parameterised decision at those pieces.  `<` → `<=`, `Some(*remote…)` → `Some(*local…)`,
+`(None, None)`, a changed shortcut … break `c06_source_ops` before any input is generated. -/
+
+inductive CmpOp where
+  | lt | le | gt | ge | eq | ne
+deriving DecidableEq, Repr
+
+def CmpOp.ofString (s : String) : Option CmpOp :=
+  if s = "<" then some .lt else if s = "<=" then some .le else if s = ">" then some .gt
+  else if s = ">=" then some .ge else if s = "==" then some .eq else if s = "!=" then some .ne
+  else none
+
+/-- `eval op remote local`. -/
+def CmpOp.eval : CmpOp → Nat → Nat → Bool
+  | .lt, r, h => decide (r < h)
+  | .le, r, h => decide (r ≤ h)
+  | .gt, r, h => decide (r > h)
+  | .ge, r, h => decide (r ≥ h)
+  | .eq, r, h => decide (r = h)
+  | .ne, r, h => decide (r ≠ h)
+
+/-- One end of an emitted range. -/
+inductive Arg where
+  | none | remote | localH
+deriving DecidableEq, Repr
+
+def Arg.ofString (s : String) : Option Arg :=
+  if s = "None" then some .none
+  else if s = "Some(*remote_log_height)" then some .remote
+  else if s = "Some(*local_log_height)" then some .localH
+  else if s = "Some(*log_height)" then some .localH
+  else none
+
+def Arg.val : Arg → Option Nat → Nat → Option Nat
+  | .none, _, _ => Option.none
+  | .remote, r, _ => r
+  | .localH, _, h => some h
+
+structure DiffOps where
+  op : CmpOp
+  behindFrom : Arg
+  behindUntil : Arg
+  newLogFrom : Arg
+  newLogUntil : Arg
+  newAuthorFrom : Arg
+  newAuthorUntil : Arg
+  shortcutIsEquality : Bool
+deriving DecidableEq, Repr
+
+def DiffOps.ofStrings (op bf bu lf lu af au sc : String) : Option DiffOps := do
+  let op ← CmpOp.ofString op
+  let bf ← Arg.ofString bf
+  let bu ← Arg.ofString bu
+  let lf ← Arg.ofString lf
+  let lu ← Arg.ofString lu
+  let af ← Arg.ofString af
+  let au ← Arg.ofString au
+  pure ⟨op, bf, bu, lf, lu, af, au, sc = "local_logs == remote_logs"⟩
+
+/-- The pieces the model transcribes. -/
+def specOps : DiffOps :=
+  ⟨.lt, .remote, .localH, .none, .localH, .none, .localH, true⟩
+
+/-- Per-log decision of `logs::compare` with the source pieces as parameters:
+    `r` = the remote's height of the log (if any), `h` = the local height. -/
+def decideLogG (o : DiffOps) (r : Option Nat) (h : Nat) : Option (Option Nat × Option Nat) :=
+  match r with
+  | none => some (o.newLogFrom.val none h, o.newLogUntil.val none h)
+  | some rv =>
+    if o.op.eval rv h then some (o.behindFrom.val (some rv) h, o.behindUntil.val (some rv) h)
+    else none
+
+/-- Range emitted for every log of an author the remote does not know. -/
+def newAuthorG (o : DiffOps) (h : Nat) : Option Nat × Option Nat :=
+  (o.newAuthorFrom.val none h, o.newAuthorUntil.val none h)
+
+/-- The text currently in `logs.rs` denotes exactly the pieces the model uses. -/
+theorem c06_source_ops :
+    DiffOps.ofStrings P2.Extracted.C06.cmpOp P2.Extracted.C06.behindFrom
+      P2.Extracted.C06.behindUntil P2.Extracted.C06.newLogFrom P2.Extracted.C06.newLogUntil
+      P2.Extracted.C06.newAuthorFrom P2.Extracted.C06.newAuthorUntil P2.Extracted.C06.shortcut
+      = some specOps := by
+  decide
+
+/-- The model's `compare` is the per-log decision at the extracted pieces, log by log (the
+    model keeps the always-`Some` upper end as a plain number). -/
+theorem c06_decision_is_source (loc rem : Heights K) :
+    Heights.compare loc rem = loc.filterMap fun e =>
+      (decideLogG specOps (lookup e.1 rem) e.2).bind fun p => p.2.map fun u => (e.1, (p.1, u)) := by
+  unfold Heights.compare
+  apply filterMap_congr'
+  intro e _
+  cases hr : lookup e.1 rem with
+  | none => simp [decideLogG, specOps, Arg.val]
+  | some r =>
+    by_cases hlt : r < e.2 <;> simp [decideLogG, specOps, Arg.val, CmpOp.eval, hlt]
+
+/-- The unknown-author branch of the nested model emits the extracted pair for every log. -/
+theorem c06_new_author_is_source (h : Nat) :
+    newAuthorG specOps h = ((none : Option Nat), some h) := rfl
+
+/-- `Cursor::compare` is the term `rs2lean` regenerates from the current body of the Rust
+    function (argument order included), with the model's `compare` plugged in. -/
+theorem c06_cursor_compare_is_source (c : Cursor K) (other : Heights K) :
+    c.compare other = P2.Extracted.C06.cursorCompareT Heights.compare c.state other := rfl
 
 /-! ## Non-vacuity: a pair of maps with a log behind, one ahead, one equal, one missing on
     either side; the nested form including an author with an empty inner map. -/
